@@ -444,3 +444,40 @@ def _const_ev(x):
             return holds(op, lv, x)
         return None
     return ev
+
+
+@rule("C06.ref-space", "a reference is validated against the size of the table the loader resolves it in: the dictionary form is looked up in "
+                       "the word's OWN lexicon (WordInfos::get_word_info -> self.parse_word_info), so its bound must be this file's entry "
+                       "count (not the system dictionary's) and a dictionary-1 ('U') reference must be rejected")
+def ref_space(db, ctx):
+    rd = db.one("get_word_info", "WordInfos")
+    same_lexicon = False
+    for c, _ in walk(rd.hir):
+        if c.get("k") == "MethodCall" and c.get("method") == "parse_word_info" and local_name(c["recv"]) == "self":
+            og = origins(db, rd, c["args"][0], depth=0)
+            if any(o[0] == "field" and o[2] == "dictionary_form_word_id" for o in og):
+                same_lexicon = True
+    ctx.ob("reader|dictionary-form-resolved-in-own-lexicon", same_lexicon,
+           "WordInfos::get_word_info resolves dictionary_form_word_id with self.parse_word_info(..) — i.e. inside the word's own lexicon: %s" % same_lexicon, fn=rd)
+    if not same_lexicon:
+        return
+    f = db.one("validate_entries", "LexiconReader")
+    found = False
+    for c, ps in walk(f.hir):
+        if is_call(c) and path_ends(callee(c), "validate_wid") and mentions(c, lambda y: y.get("k") == "Field" and y.get("name") == "dic_form"):
+            a = call_args(c)
+            og0 = origins(db, f, a[1], depth=0)
+            fields0 = {o[2] for o in og0 if o[0] == "field"}
+            unknown0 = any(o[0] == "unknown" for o in og0)
+            own = "entries" in fields0 and "num_system" not in fields0 and not unknown0
+            user_rejected = lit_int(a[2]) == 0
+            found = True
+            ctx.ob("validate_entries|dic_form-bound", own and user_rejected,
+                   "validate_wid(e.dic_form, `%s`, `%s`, ..): bound for plain ids derives from fields %s%s (must be this file's own entry count only), "
+                   "bound for 'U' ids = %s (must be the constant 0: the loader cannot resolve them)%s" % (
+                       render(a[1]), render(a[2]), sorted(fields0), " + a branch" if unknown0 else "", render(a[2]),
+                       "" if own and user_rejected else " — a user dictionary whose dictionary-form column holds a valid SYSTEM word number compiles and "
+                                                        "then indexes outside its own word table when the word is analysed"),
+                   fn=f, site=c.get("sp"))
+    if not found:
+        raise AnchorMissing("validate_entries: validate_wid(e.dic_form, ..)")
